@@ -3,8 +3,9 @@ import ScriggoV.Model.ComposeEngine
 /-! Line protocol of C16 (prefix notation, fixed arity; formats/contexts by their Go constant value):
 
   file  := F <fmt> <nitems> item*
-  item  := A atom | M <name> <fmt|-> <natoms> atom* | X <path> | I <path>
-  atom  := T <hex> | S <ctx> <hex> | R <ctx> <path> <0|1> | C <ctx> <name> <0|1>
+  item  := A atom | M <name> <fmt|-> <nparams> <fmt>* <natoms> atom* | X <path> | I <path>
+  atom  := T <hex> | S <ctx> <hex> | P <ctx> <index> | R <ctx> <path> <0|1>
+         | C <ctx> <name> <0|1> <nargs> <hex>*
   table := <n> (<fmt> <ctx> <hex content> <hex shown>)*      -- showIn<ctx> as measured on the real engine
 
   run <main> <fuel> <nfiles> file* table  → ok <fmt> <hex> | err fuel|nofile|undefined|badextends
@@ -43,7 +44,7 @@ def fmt : P Format := do
 
 def ctx : P Ctx := do
   let n ← nat
-  match Ctx.ofCode n with
+  match Ctx.ofWire n with
   | some c => pure c
   | none => failure
 
@@ -68,15 +69,18 @@ def atom : P Atom := do
   if t == "T" then do let b ← hex; pure (.text b)
   else if t == "S" then do let c ← ctx; let b ← hex; pure (.showConst c b)
   else if t == "R" then do let c ← ctx; let p ← nat; let v ← flag; pure (.render c p v)
-  else if t == "C" then do let c ← ctx; let m ← nat; let v ← flag; pure (.call c m v)
+  else if t == "P" then do let c ← ctx; let i ← nat; pure (.showParam c i)
+  else if t == "C" then do
+    let c ← ctx; let m ← nat; let v ← flag; let n ← nat; let args ← rep hex n
+    pure (.call c m v args)
   else failure
 
 def item : P Item := do
   let t ← tok
   if t == "A" then do let a ← atom; pure (.atom a)
   else if t == "M" then do
-    let m ← nat; let f ← optFmt; let n ← nat; let body ← rep atom n
-    pure (.macroDecl m f body)
+    let m ← nat; let f ← optFmt; let np ← nat; let ps ← rep fmt np; let n ← nat; let body ← rep atom n
+    pure (.macroDecl m f ps body)
   else if t == "X" then do let p ← nat; pure (.extends_ p)
   else if t == "I" then do let p ← nat; pure (.import_ p)
   else failure
@@ -109,7 +113,8 @@ def errName : Err → String
   | .noFile _ => "nofile"
   | .undefined _ => "undefined"
   | .badExtends => "badextends"
-  | .needEsc f c b => s!"need {f.code} {c.code} {toHex b}"
+  | .badArgs => "badargs"
+  | .needEsc f c b => s!"need {f.code} {c.wire} {toHex b}"
 
 def runOp (generic : Bool) : P String := do
   let main ← nat; let fuel ← nat; let nf ← nat
